@@ -117,6 +117,53 @@ def extract(table, cfg_mode, expanded, enc, blocked, nrows, maxlen, via_csv=Fals
     return h
 
 
+def two_readers():
+    """two extracts that number their tables differently, each with its own reader, open at the same time (or one after the other):
+    every reader resolves sub-ids through the index of its own file"""
+    def h():
+        core.FUEL.set(60)
+        m = M().mciipm
+        from . import packaged
+        order = choose('order', ['open-both-first', 'one-after-the-other'])
+        ta, tb = 'IP0075T1', 'IP0095T1'
+        la, lb = packaged.param_tables()[ta], packaged.param_tables()[tb]
+        swapped = {ta: SUBID[tb], tb: SUBID[ta]}
+        ns = [sym_int('row%d_len' % i, 0, 80) for i in range(4)]
+        bodies = [Source('row%d' % i, 't', n).rope() if not (isinstance(n, int) and n == 0) else '' for i, n in enumerate(ns)]
+        # file A numbers the tables as usual; file B has the two sub-ids the other way round
+        rows_a = [cat('t', '2100000A' + SUBID[ta], bodies[0]), cat('t', '2100001A' + SUBID[tb], bodies[1])]
+        rows_b = [cat('t', '2100002A' + swapped[ta], bodies[2]), cat('t', '2100003A' + swapped[tb], bodies[3])]
+        rp = lambda: {'kind': 'two_readers', 'args': {'order': order, 'bodies': [concretize(b, ev) if isinstance(b, Rope) else b for b in bodies]}}
+        core.set_fallback(rp, 'C18/concretised')
+
+        def mkfile(rows, ids):
+            f = RopeFile()
+            w = m.VbsWriter(f)
+            for t in (ta, tb):
+                w.write(((' ' * 11 + 'IP0000T1' + t).ljust(243) + ids[t] + ' ' * 10).encode('latin_1'))
+            w.write(TRAILER.encode('latin_1'))
+            for r in rows:
+                w.write(r.encode('latin_1'))
+            w.close()
+            f.pos = 0
+            return f
+        fa, fb = mkfile(rows_a, {ta: SUBID[ta], tb: SUBID[tb]}), mkfile(rows_b, swapped)
+        with guard('IpmParamReader x 2', 'C18/exception', rp):
+            if order == 'open-both-first':
+                ra, rb = m.IpmParamReader(fa, ta), m.IpmParamReader(fb, ta)
+                got_a, got_b = list(ra), list(rb)
+            else:
+                got_a = list(m.IpmParamReader(fa, ta))
+                got_b = list(m.IpmParamReader(fb, ta))
+        for name, got, row in (('first', got_a, rows_a[0]), ('second', got_b, rows_b[0])):
+            require(len(got) == 1, 'the %s reader returned %d rows of %s, its file has 1' % (name, len(got), ta), key='C18/two-readers', replay=rp)
+            for col, pos in la.items():
+                req_eq(got[0].get(col), sl(row, pos['start'] - 8, pos['end'] - 8), '%s reader: column %s is not characters %s..%s of its row'
+                       % (name, col, pos['start'], pos['end']), key='C18/two-readers', replay=rp)
+        return {'sample': {'order': order, 'lens': [ev(n) for n in ns]}, 'replay': rp()}
+    return h
+
+
 def ascii_reader():
     """reading with the strict ascii codec a file in which only rows of *other* tables (and the filler behind the configured columns of
     the requested rows) contain bytes outside ASCII: the reader looks only at the key fields and the configured columns"""
@@ -160,8 +207,9 @@ def refusals():
     def h():
         m = M().mciipm
         which = choose('case', ['no-trailer', 'other-trailer-only', 'no-config', 'not-in-caller-config', 'ok', 'ok-caller-config', 'no-records', 'zero-bytes'])
-        rows = [data_row(0, 'IP0040T1', False, 50)]
-        rp = {'kind': 'refuse', 'args': {'case': which}}
+        expanded = choose('expanded', [False, True])          # the refusals do not depend on the representation of the rows
+        rows = [data_row(0, 'IP0040T1', expanded, 50)]
+        rp = {'kind': 'refuse', 'args': {'case': which, 'expanded': expanded}}
         core.set_fallback(rp, 'C18/concretised')
         extra_rows = ['TRAILER RECORD IP0075T1  00000003'] if which == 'other-trailer-only' else []
         f = build_file(m, extra_rows + [r[0] for r in rows] + extra_rows, 'latin_1', False, with_trailer=(which not in ('no-trailer', 'other-trailer-only')))
@@ -172,11 +220,11 @@ def refusals():
         caller = {'IP0075T1': {'col': {'start': 19, 'end': 22}}, 'IP0190T1': {'col': {'start': 19, 'end': 30}}}
         try:
             if which == 'not-in-caller-config':
-                m.IpmParamReader(f, 'IP0040T1', param_config=caller)        # the caller's configuration counts, not the packaged one
+                m.IpmParamReader(f, 'IP0040T1', param_config=caller, expanded=expanded)        # the caller's configuration counts, not the packaged one
             elif which == 'ok-caller-config':
-                m.IpmParamReader(f, 'IP0075T1', param_config=caller)
+                m.IpmParamReader(f, 'IP0075T1', param_config=caller, expanded=expanded)
             else:
-                m.IpmParamReader(f, 'IP0040T1' if which != 'no-config' else 'IP9999T1')
+                m.IpmParamReader(f, 'IP0040T1' if which != 'no-config' else 'IP9999T1', expanded=expanded)
             raised = False
         except m.MciIpmDataError:
             raised = True
@@ -216,5 +264,8 @@ def obligations(tier):
                   'generated table whose column may start anywhere from position 0 (over the timestamp / code / table id of an expanded row)', _funcs))
     obs.append(Ob('ascii-codec/non-ascii-outside-the-columns', ascii_reader(), 120,
                   'encoding=ascii (strict codec), concrete rows: bytes >= 0x80 only in a row of another table / behind the configured columns', _funcs))
+    obs.append(Ob('two-readers/different-sub-id-numbering', two_readers(), 300,
+                  'two compressed extracts whose indexes give IP0075T1 and IP0095T1 each other\'s sub-id, a reader on each (opened together / one after the other), '
+                  'rows of every length', _funcs))
     obs.append(Ob('refusals', refusals(), 60, 'missing trailer / unconfigured table', _funcs))
     return obs
